@@ -369,3 +369,7 @@ func TestMain(m *testing.M)   { vf.Main(m, "C01") }
 func TestCorpus(t *testing.T) { vf.Corpus(t) }
 func TestProp(t *testing.T)   { vf.RunAll(t) }
 func TestReplay(t *testing.T) { vf.ReplayEnv(t) }
+
+// native fuzz targets (thorough tier): the fuzzer mutates the byte stream that rapid decodes into generator choices
+func FuzzRandomSmall(f *testing.F) { vf.FuzzNamed(f, "C01", "random-small") }
+func FuzzHardSmall(f *testing.F) { vf.FuzzNamed(f, "C01", "hard-small-xor-php") }
